@@ -918,6 +918,7 @@ class Ctx:
                           pruned=0, prove_queries=0, prove_unsat=0, prove_sat=0,
                           prove_unknown=0, solver_s=0.0, aborted_paths=0)
         self.concrete = False
+        self.prefer = []
         self.clear_div = True
         from .cleardiv import Clearer
         self.clearer = Clearer()
@@ -930,6 +931,7 @@ class Ctx:
         self._fresh = 0
         self.fn_cache = {}
         self.fn_apps = {}
+        self.prefer = []
         if self.deadline is not None and time.time() > self.deadline:
             raise Inconclusive("time budget exhausted after %d paths" % self.stats["paths"])
         if self.stats["paths"] >= self.max_paths:
@@ -1132,7 +1134,13 @@ class Ctx:
             return
         if r == z3.sat:
             self.stats["prove_sat"] += 1
-            raise Counterexample(label, self.solver.model(), detail)
+            mdl = self.solver.model()
+            if self.prefer:
+                # a counterexample that also satisfies the harness's observability preferences, if one exists
+                r2 = self._check(z3.Not(prop), *self.prefer, timeout=min(self.prove_timeout_ms, 20000))
+                if r2 == z3.sat:
+                    mdl = self.solver.model()
+            raise Counterexample(label, mdl, detail)
         self.stats["prove_unknown"] += 1
         raise Inconclusive("solver returned unknown on obligation %s (%s)" % (label, self.solver.reason_unknown()))
 
